@@ -58,14 +58,14 @@ open PolyVerif PolyVerif.Transform PolyVerif.DigestSpec PolyVerif.Driver.C10
 /-! ### adjacency in a strictly sorted cut list = "the next cut to the right" -/
 
 section Adjacent
-variable {S : List Overhang} (hs : S.Pairwise PosLt) {fs rs extra : List Int}
+variable {S : List Overhang} (hs : S.Pairwise KeyLt) {fs rs extra : List Int}
   (hfs : ∀ c, c ∈ fs ↔ (∃ o ∈ S, o.forward = true ∧ o.position = c) ∨ c ∈ extra)
   (hrs : ∀ c, c ∈ rs ↔ ∃ o ∈ S, o.forward = false ∧ o.position = c)
   (hextra : ∀ e ∈ extra, ∀ r ∈ rs, r < e)
 include hs hfs hrs hextra
 
 theorem linStretch_adjacent {a b : Overhang} (hab : (a, b) ∈ adjPairs S) (haf : a.forward = true) :
-    a.position < b.position ∧
+    a.position ≤ b.position ∧
     linStretch fs rs a.position = if b.forward = false then some (b.position - a.position).toNat else none := by
   obtain ⟨l1, l2, hdec⟩ := adjPairs_decomp _ a b hab
   have hs' := hs
@@ -73,13 +73,18 @@ theorem linStretch_adjacent {a b : Overhang} (hab : (a, b) ∈ adjPairs S) (haf 
   obtain ⟨_, h2, h3⟩ := List.pairwise_append.1 hs'
   obtain ⟨h4, h5⟩ := List.pairwise_cons.1 h2
   obtain ⟨h6, _⟩ := List.pairwise_cons.1 h5
-  have habp : a.position < b.position := h4 b (by simp)
-  have hbet : ∀ c ∈ S, c = a ∨ c = b ∨ c.position < a.position ∨ b.position < c.position := by
+  have habk : KeyLt a b := h4 b (by simp)
+  have habp : a.position ≤ b.position := by unfold KeyLt at habk; omega
+  -- every other element lies strictly left of `a`, or at/right of `b` (strictly unless `b` forward, it reverse)
+  have hbet : ∀ c ∈ S, c = a ∨ c = b ∨ c.position < a.position ∨ KeyLt b c := by
     intro c hc
     rw [hdec] at hc
     simp only [List.mem_append, List.mem_cons] at hc
     rcases hc with h | h | h | h
-    · exact Or.inr (Or.inr (Or.inl (h3 c h a (by simp))))
+    · have : KeyLt c a := h3 c h a (by simp)
+      rcases this with h' | ⟨_, _, h'⟩
+      · exact Or.inr (Or.inr (Or.inl h'))
+      · rw [haf] at h'; exact absurd h' (by simp)
     · exact Or.inl h
     · exact Or.inr (Or.inl h)
     · exact Or.inr (Or.inr (Or.inr (h6 c h)))
@@ -96,38 +101,46 @@ theorem linStretch_adjacent {a b : Overhang} (hab : (a, b) ∈ adjPairs S) (haf 
       · rw [h, haf] at hcf; exact absurd hcf (by simp)
       · rw [h]; omega
       · omega
-      · omega
+      · unfold KeyLt at h; omega
     · intro c' hc' hlt
       rcases (hfs c').1 hc' with ⟨c, hc, hcf, rfl⟩ | he
       · rcases hbet c hc with h | h | h | h
         · rw [h] at hlt; omega
         · rw [h, hbf] at hcf; exact absurd hcf (by simp)
         · omega
-        · omega
+        · rcases h with h' | ⟨_, h', _⟩
+          · omega
+          · rw [hbf] at h'; exact absurd h' (by simp)
       · have := hextra c' he b.position ((hrs _).2 ⟨b, hbS, hbf, rfl⟩)
         omega
   · rename_i hbf
     have hbt : b.forward = true := by simpa using hbf
+    have hablt : a.position < b.position := by
+      rcases habk with h | ⟨_, _, h⟩
+      · exact h
+      · rw [hbt] at h; exact absurd h (by simp)
     rw [Option.eq_none_iff_forall_ne_some]
     intro d hd
     obtain ⟨⟨r, hr, hcr, hrd⟩, _, hall⟩ := linStretch_eq_some_iff.1 hd
     obtain ⟨c, hc, hcf, rfl⟩ := (hrs r).1 hr
-    have hb := hall b.position ((hfs _).2 (Or.inl ⟨b, hbS, hbt, rfl⟩)) habp
+    have hb := hall b.position ((hfs _).2 (Or.inl ⟨b, hbS, hbt, rfl⟩)) hablt
     rcases hbet c hc with h | h | h | h
     · rw [h, haf] at hcf; exact absurd hcf (by simp)
     · rw [h, hbt] at hcf; exact absurd hcf (by simp)
     · omega
-    · omega
+    · unfold KeyLt at h; omega
 
 omit hs hfs hextra in
-theorem linStretch_max {a : Overhang} (hmax : ∀ c ∈ S, c = a ∨ c.position < a.position)
+theorem linStretch_max {a : Overhang} (hmax : ∀ c ∈ S, c = a ∨ KeyLt c a)
     (haf : a.forward = true) : linStretch fs rs a.position = none := by
   apply linStretch_eq_none_of
   intro r hr
   obtain ⟨c, hc, hcf, rfl⟩ := (hrs r).1 hr
   rcases hmax c hc with h | h
   · rw [h, haf] at hcf; exact absurd hcf (by simp)
-  · exact h
+  · rcases h with h' | ⟨_, _, h'⟩
+    · exact h'
+    · rw [haf] at h'; exact absurd h' (by simp)
 
 end Adjacent
 
@@ -217,7 +230,6 @@ structure WFL (g : Geometry) (w : Nat → Char) (n : Nat) : Prop where
   site_ne : g.site ≠ []
   acgt : g.site.all isUpperAcgt = true
   nonpal : g.site ≠ rcSite g.site
-  oh_pos : 1 ≤ g.oh
   apartF : ∀ p ∈ linSites w n g.site, ∀ p' ∈ linSites w n g.site, p ≠ p' →
     p + g.site.length ≤ p' ∨ p' + g.site.length ≤ p
   apartR : ∀ p ∈ linSites w n (rcSite g.site), ∀ p' ∈ linSites w n (rcSite g.site), p ≠ p' →
@@ -227,8 +239,8 @@ structure WFL (g : Geometry) (w : Nat → Char) (n : Nat) : Prop where
 theorem wfl_of_wfLinearW {g : Geometry} {w : Nat → Char} {n : Nat} (h : wfLinearW g w n = true) : WFL g w n := by
   simp only [wfLinearW, wfGeometry, noOverlapLin, pairedApartLin, Bool.and_eq_true, decide_eq_true_eq, List.all_eq_true,
     List.mem_append, Bool.or_eq_true, beq_iff_eq, bne_iff_ne, ne_eq, ge_iff_le] at h
-  obtain ⟨⟨⟨⟨⟨h1, h2⟩, h3⟩, h4⟩, h6⟩, h7⟩ := h
-  refine ⟨?_, ?_, h3, h4, ?_, ?_, ?_⟩
+  obtain ⟨⟨⟨⟨h1, h2⟩, h3⟩, h6⟩, h7⟩ := h
+  refine ⟨?_, ?_, h3, ?_, ?_, ?_⟩
   · intro h; rw [h] at h1; simp at h1
   · exact List.all_eq_true.2 h2
   · intro p hp p' hp' hne
@@ -400,18 +412,6 @@ theorem lin_core (g : Geometry) (u : Str) (hwf : WFL g (letter u) u.length)
     · rintro ⟨o, ho, rfl⟩
       obtain ⟨q, hq, rfl⟩ := (mem_linR0 g u (rcSite g.site) hrcne hnoR o).1 ho
       exact ⟨q, hq, rfl⟩
-  -- a forward and a reverse cut never coincide
-  have hFR : ∀ f ∈ linF0 g u, ∀ r ∈ linR0 g u, f.position ≠ r.position := by
-    intro f hf r hr heq
-    have hc : f.position ∈ linFwdCuts g (letter u) u.length := (hfsF0 _).2 ⟨f, hf, rfl⟩
-    have hs : linStretch (linFwdCuts g (letter u) u.length) (linRevCuts g (letter u) u.length) f.position = some 0 := by
-      rw [linStretch_eq_some_iff]
-      refine ⟨⟨r.position, (hrsR0 _).2 ⟨r, hr, rfl⟩, by omega, by omega⟩, ?_, ?_⟩
-      · intro r' _ h; omega
-      · intro c' _ h; omega
-    have := hwf.paired _ hc 0 hs
-    have := hwf.oh_pos
-    omega
   -- no reverse cut lies at or beyond an overhang that is too far right
   have hextra : ∀ e ∈ extraO.map (·.position), ∀ r ∈ linRevCuts g (letter u) u.length, r < e := by
     intro e he r hr
@@ -489,12 +489,13 @@ theorem lin_core (g : Geometry) (u : Str) (hwf : WFL g (letter u) u.length)
       rcases (hSmem o).1 ho with h | h
       · rw [(hF0fwd o (hTF0 o h)).1] at hf; exact absurd hf (by simp)
       · exact ⟨o, h, rfl⟩
-  have hinj : ∀ c ∈ sortByPos (T ++ linR0 g u), ∀ d ∈ sortByPos (T ++ linR0 g u), c.position = d.position → c = d := by
-    intro c hc d hd h
+  have hinj : ∀ c ∈ sortByPos (T ++ linR0 g u), ∀ d ∈ sortByPos (T ++ linR0 g u),
+      c.position = d.position → c.forward = d.forward → c = d := by
+    intro c hc d hd h hf
     rcases (hSmem c).1 hc with hc' | hc' <;> rcases (hSmem d).1 hd with hd' | hd'
     · exact posLt_inj hTs hc' hd' h
-    · exact absurd h (hFR c (hTF0 c hc') d hd')
-    · exact absurd h.symm (hFR d (hTF0 d hd') c hc')
+    · rw [(hF0fwd c (hTF0 c hc')).1, (hR0rev d hd').1] at hf; exact absurd hf (by simp)
+    · rw [(hF0fwd d (hTF0 d hd')).1, (hR0rev c hc').1] at hf; exact absurd hf (by simp)
     · exact posLt_inj hR0s hc' hd' h
   have hnodup : (sortByPos (T ++ linR0 g u)).Nodup := by
     rw [(sortByPos_perm _).nodup_iff, List.nodup_append]
@@ -505,17 +506,14 @@ theorem lin_core (g : Geometry) (u : Str) (hwf : WFL g (letter u) u.length)
       have h1 := (hF0fwd a (hTF0 a ha)).1
       have h2 := (hR0rev b hb).1
       rw [e, h2] at h1; exact absurd h1 (by simp)
-  have hsorted : (sortByPos (T ++ linR0 g u)).Pairwise PosLt := by
-    have h1 : (sortByPos (T ++ linR0 g u)).Pairwise PosLe := sortByPos_sorted _
-    have h2 : (sortByPos (T ++ linR0 g u)).Pairwise (· ≠ ·) := hnodup
-    refine (h1.and h2).imp_of_mem ?_
-    intro a b ha hb hab
-    obtain ⟨hle, hne⟩ := hab
-    unfold PosLe at hle
-    unfold PosLt
-    rcases Int.lt_or_eq_of_le hle with hlt | heq
-    · exact hlt
-    · exact absurd (hinj a ha b hb heq) hne
+  have hsorted : (sortByPos (T ++ linR0 g u)).Pairwise KeyLt := by
+    refine keyLt_of_keyLe (sortByPos_keySorted _ ?_) hnodup hinj
+    rw [List.pairwise_append]
+    refine ⟨?_, ?_, ?_⟩
+    · exact List.Pairwise.imp_of_mem (fun {a b} ha _ _ => Or.inl (hF0fwd a (hTF0 a ha)).1) hTs
+    · exact List.Pairwise.imp_of_mem (fun {a b} _ hb _ => Or.inr (hR0rev b hb).1) hR0s
+    · intro a ha b _
+      exact Or.inl (hF0fwd a (hTF0 a ha)).1
   -- one pair of the loop
   have hkey : ∀ p ∈ adjPairs (sortByPos (T ++ linR0 g u)),
       (pieceOf u p).map (triple g.oh) = (if p.1.forward then fragAtLin g (letter u) u.length p.1.position else none) ∧
@@ -544,7 +542,7 @@ theorem lin_core (g : Geometry) (u : Str) (hwf : WFL g (letter u) u.length)
           congr 1; omega
         have hpiece : pieceOf u (a, b) = some (window (letter u) a.position.toNat (b.position - a.position).toNat) := by
           simp only [pieceOf, haf, hbf, Bool.not_false, Bool.and_self, if_true, hslice]
-        refine ⟨?_, ?_, fun _ _ => ⟨ha0, Int.le_of_lt hlt, hbn⟩⟩
+        refine ⟨?_, ?_, fun _ _ => ⟨ha0, hlt, hbn⟩⟩
         · rw [hpiece]
           simp only [haf, if_true, fragAtLin, hst, Option.map_some]
         · intro f hf
@@ -612,7 +610,7 @@ theorem lin_core (g : Geometry) (u : Str) (hwf : WFL g (letter u) u.length)
     · rw [hLa] at hsorted hfs hrs ⊢
       simp only [List.concat_eq_append] at hsorted hfs hrs ⊢
       rw [List.dropLast_concat, List.filterMap_append]
-      have hmax : ∀ c ∈ L ++ [a], c = a ∨ c.position < a.position := by
+      have hmax : ∀ c ∈ L ++ [a], c = a ∨ KeyLt c a := by
         intro c hc
         rcases List.mem_append.1 hc with h | h
         · exact Or.inr ((List.pairwise_append.1 hsorted).2.2 c h a (by simp))
@@ -644,6 +642,7 @@ theorem lin_core (g : Geometry) (u : Str) (hwf : WFL g (letter u) u.length)
       · apply List.Nodup.map_on _ (hnodup.filter _)
         intro a ha b hb h
         exact hinj a (List.mem_filter.1 ha).1 b (List.mem_filter.1 hb).1 h
+          (by rw [(List.mem_filter.1 ha).2, (List.mem_filter.1 hb).2])
       · match extraO, hlen with
         | [], _ => simp
         | [x], _ => simp
